@@ -17,14 +17,21 @@ from .statuspred import status_set
 UPSTREAM_CALLS = ("all_upstream_stages_complete",)
 
 
-def eval_pred(e: ast.expr, var: str, m: str, U: bool, T):
+def eval_pred(e: ast.expr, var: str, m: str, U: bool, T, extra: dict | None = None):
+    """extra: canonical atom text (sa/dom.canon_fact polarity: ==, in, is) -> truth, for atoms that are neither status nor upstream tests"""
+    if extra:
+        from .dom import canon_fact
+        if isinstance(e, ast.Compare) and len(e.ops) == 1:
+            facts = canon_fact(e, True)
+            if len(facts) == 1 and facts[0][0] in extra:
+                return extra[facts[0][0]] == facts[0][1]
     if isinstance(e, ast.Constant) and isinstance(e.value, bool):
         return e.value
     if isinstance(e, ast.UnaryOp) and isinstance(e.op, ast.Not):
-        r = eval_pred(e.operand, var, m, U, T)
+        r = eval_pred(e.operand, var, m, U, T, extra)
         return None if r is None else not r
     if isinstance(e, ast.BoolOp):
-        vals = [eval_pred(v, var, m, U, T) for v in e.values]
+        vals = [eval_pred(v, var, m, U, T, extra) for v in e.values]
         if isinstance(e.op, ast.And):
             if any(v is False for v in vals):
                 return False
